@@ -53,6 +53,9 @@ pub fn check(case: &C15Case, st: &mut Stats) -> Verdict {
     if chains.len() == 2 {
         st.label("second_chain_on_the_same_credential");
     }
+    // (input of the last step, its selection, the paths it must disclose) of every chain, for the
+    // interleaved repetition at the end
+    let mut last_steps: Vec<(String, Map<String, Value>, std::collections::BTreeSet<crate::tree::Path>)> = vec![];
     for (chain_no, chain) in chains.into_iter().enumerate() {
     let case_chain = chain;
     let sels: Vec<_> = case_chain.iter().map(|s| select(&tree, &as_map(s))).collect();
@@ -101,6 +104,9 @@ pub fn check(case: &C15Case, st: &mut Stats) -> Verdict {
     for (i, s) in case_chain.iter().enumerate() {
         let stage = format!("create_presentation(step {} of chain {})", i + 1, chain_no + 1);
         let kb_here = if i + 1 == case_chain.len() { final_kb } else { None };
+        if i + 1 == case_chain.len() {
+            last_steps.push((cur.clone(), as_map(s), last.paths.clone()));
+        }
         cur = match sut::present(&cur, spec.fmt, &as_map(s), kb_here) {
             Out::Ok(p) => p,
             Out::Err(e) => {
@@ -137,6 +143,32 @@ pub fn check(case: &C15Case, st: &mut Stats) -> Verdict {
             ));
         }
     }
+    }
+    // Interleaved repetition: the last narrowing step of every chain once more, alternating between
+    // the chains (1, 2, 1): holders built one after the other from DIFFERENT presentations of the
+    // same credential — often with the same number of disclosures — must each still present exactly
+    // what their own presentation and selection say
+    if last_steps.len() == 2 {
+        st.label("last_steps_repeated_alternately");
+        for k in [0usize, 1, 0] {
+            let (input, selection, paths) = &last_steps[k];
+            st.sub(1);
+            let again = match sut::present(input, spec.fmt, selection, None) {
+                Out::Ok(p) => p,
+                Out::Err(e) => {
+                    return Err(Failure::new(
+                        err_sig("create_presentation(repeated last step)", &e),
+                        format!("the last step of chain {} succeeded before and fails when repeated after a holder was built from another presentation of the same credential: {}\n  input of that step: {}\n  selection: {}", k + 1, e, sut::clip(input, 3000), Value::Object(selection.clone())),
+                    ))
+                }
+                Out::Panic(p) => return Err(Failure::new(panic_sig("create_presentation(repeated last step)", &p), format!("repeated last step of chain {} panicked: {}", k + 1, p))),
+            };
+            match check_presentation(&issued, spec.fmt, paths, &again, None) {
+                Ok(_) => {}
+                Err(f) if f.signature == "harness:void" => {}
+                Err(f) => return Err(Failure::new(format!("repeated:{}", f.signature), format!("[last step of chain {} repeated after a holder was built from another presentation of the same credential] {}", k + 1, f.message))),
+            }
+        }
     }
     Ok(())
 }
